@@ -107,19 +107,25 @@ Qed.
 Definition exclude_me_of (opts : dict) : bool :=
   match dget opts "exclude_me" with Some (VBool x) => x | _ => true end.
 
-Definition sub_events (lookup : N -> option session) (pub : session) (pubid : N) (topic : string)
+(** the details dictionary of an EVENT (and of a stored history entry, with
+    [recv = None]): the passthru part, then topic / publisher disclosure *)
+Definition event_dict (opts : dict) (topic : string) (send_topic disclose : bool) (pub : session)
+           (recv : option session) : dict :=
+  ppt_part opts ++ event_details topic send_topic disclose pub recv.
+
+Definition sub_events (lookup : N -> option session) (pub : session) (pubid : N) (opts : dict) (topic : string)
            (args : list value) (kw : dict) (ep disc : bool) (f : pfilter) (sst : subscription * bool) : list out :=
-  map (fun rs => (s_id rs, REvent (sub_id (fst sst)) pubid (event_details topic (snd sst) disc pub (Some rs)) args kw))
+  map (fun rs => (s_id rs, REvent (sub_id (fst sst)) pubid (event_dict opts topic (snd sst) disc pub (Some rs)) args kw))
       (sub_targets lookup (s_id pub) ep f (fst sst)).
 
 Lemma pub_event_out : forall lookup now pub pubid opts topic args kw ep disc f b o sst,
     snd (pub_event lookup now pub pubid opts topic args kw ep disc f (b, o) sst) =
-    o ++ sub_events lookup pub pubid topic args kw ep disc f sst.
+    o ++ sub_events lookup pub pubid opts topic args kw ep disc f sst.
 Proof. intros. destruct sst as [s st]. reflexivity. Qed.
 
 Lemma pub_fold_out : forall lookup now pub pubid opts topic args kw ep disc f l b o,
     snd (fold_left (pub_event lookup now pub pubid opts topic args kw ep disc f) l (b, o)) =
-    o ++ flat_map (sub_events lookup pub pubid topic args kw ep disc f) l.
+    o ++ flat_map (sub_events lookup pub pubid opts topic args kw ep disc f) l.
 Proof.
   intros lookup now pub pubid opts topic args kw ep disc f l; induction l as [|sst l IH]; intros b o; cbn [fold_left flat_map].
   - now rewrite app_nil_r.
@@ -187,9 +193,9 @@ Proof.
   apply in_map_iff. exists a'. split; auto. rewrite <- !Hk. now rewrite E.
 Qed.
 
-Lemma sub_events_NoDup : forall lookup pub pubid topic args kw ep disc f sst,
+Lemma sub_events_NoDup : forall lookup pub pubid opts topic args kw ep disc f sst,
     lookup_ok lookup -> NoDup (sub_subs (fst sst)) ->
-    NoDup (sub_events lookup pub pubid topic args kw ep disc f sst).
+    NoDup (sub_events lookup pub pubid opts topic args kw ep disc f sst).
 Proof.
   intros. unfold sub_events.
   apply (NoDup_map_key s_id); [reflexivity|].
@@ -201,7 +207,7 @@ Qed.
 Definition event_for (pub : session) (pg : N) (opts : dict) (topic : string) (args : list value) (kw : dict)
            (s : subscription) (rs : session) : out :=
   (s_id rs, REvent (sub_id s) (pg + 1)
-                   (event_details topic (is_pattern (kind s)) (opt_bool opts "disclose_me") pub (Some rs)) args kw).
+                   (event_dict opts topic (is_pattern (kind s)) (opt_bool opts "disclose_me") pub (Some rs)) args kw).
 
 (** session [r], attached as [rs], is to receive the publication through [s] *)
 Definition receives (lookup : N -> option session) (b : broker) (pub : session) (opts : dict) (topic : string)
@@ -210,22 +216,25 @@ Definition receives (lookup : N -> option session) (b : broker) (pub : session) 
   ~ (r = s_id pub /\ exclude_me_of opts = true) /\
   lookup r = Some rs /\ allowed (make_filter opts) r (s_details rs) = true.
 
-Definition pub_accepted (cfg : config) (opts : dict) (topic : string) : Prop :=
+(** the PUBLISH is neither refused (invalid URI, disallowed disclose_me) nor a
+    protocol violation (passthru mode used without the publisher feature) *)
+Definition pub_accepted (cfg : config) (pub : session) (opts : dict) (topic : string) : Prop :=
   valid_uri (c_strict cfg) "" topic = true /\
+  publish_aborts cfg pub opts topic = false /\
   (opt_bool opts "disclose_me" = true -> c_disclose cfg = true).
 
 Lemma publish_unfold : forall cfg lookup now b pg pub req opts topic args kw,
-    pub_accepted cfg opts topic ->
+    pub_accepted cfg pub opts topic ->
     publish cfg lookup now b pg pub req opts topic args kw =
     (fst (fold_left (pub_event lookup now pub (pg + 1) opts topic args kw (exclude_me_of opts)
                                (opt_bool opts "disclose_me") (make_filter opts)) (matching_subs b topic) (b, [])),
      pg + 1,
-     flat_map (sub_events lookup pub (pg + 1) topic args kw (exclude_me_of opts) (opt_bool opts "disclose_me") (make_filter opts))
+     flat_map (sub_events lookup pub (pg + 1) opts topic args kw (exclude_me_of opts) (opt_bool opts "disclose_me") (make_filter opts))
               (matching_subs b topic)
      ++ (if opt_bool opts "acknowledge" then [(s_id pub, RPublished req (pg + 1))] else [])).
 Proof.
-  intros cfg lookup now b pg pub req opts topic args kw [Hv Hd]. unfold publish.
-  rewrite Hv. cbn [negb].
+  intros cfg lookup now b pg pub req opts topic args kw (Hv & Hab & Hd). unfold publish.
+  rewrite Hv, Hab. cbn [negb].
   assert (opt_bool opts "disclose_me" && negb (c_disclose cfg) = false) as ->.
   { destruct (opt_bool opts "disclose_me"); auto. rewrite Hd; auto. }
   fold (exclude_me_of opts).
@@ -236,7 +245,7 @@ Proof.
 Qed.
 
 Theorem publish_exact : forall cfg lookup now b pg pub req opts topic args kw b' pg' o,
-    broker_wf b -> lookup_ok lookup -> pub_accepted cfg opts topic ->
+    broker_wf b -> lookup_ok lookup -> pub_accepted cfg pub opts topic ->
     publish cfg lookup now b pg pub req opts topic args kw = (b', pg', o) ->
     pg' = pg + 1 /\ NoDup o /\
     forall x, In x o <->
@@ -317,4 +326,131 @@ Corollary event_topic_iff : forall topic k disc pub recv,
 Proof.
   intros. unfold dhas, amem. fold (dget (event_details topic (is_pattern k) disc pub recv) "topic").
   rewrite event_details_topic. destruct k; cbn; split; congruence.
+Qed.
+
+(** ** Payload passthru mode *)
+
+(** a valid-topic PUBLISH that uses passthru mode without the publisher having
+    announced it: the broker and the id supply are unchanged and the output is
+    exactly the ABORT — no EVENT, no PUBLISHED, nothing stored *)
+Theorem publish_ppt_violation_aborts : forall cfg lookup now b pg pub req opts topic args kw,
+    valid_uri (c_strict cfg) "" topic = true -> ppt_active opts = true ->
+    sess_feature pub "publisher" f_ppt = false ->
+    publish cfg lookup now b pg pub req opts topic args kw =
+    (b, pg, [(s_id pub, RAbort [("message", vstr "<text>")] e_protocol_violation)]).
+Proof.
+  intros cfg lookup now b pg pub req opts topic args kw Hv Ha Hf. unfold publish, publish_aborts.
+  rewrite Hv, Ha, Hf. reflexivity.
+Qed.
+
+Lemma publish_aborts_iff : forall cfg pub opts topic,
+    publish_aborts cfg pub opts topic = true <->
+    valid_uri (c_strict cfg) "" topic = true /\ ppt_active opts = true /\
+    sess_feature pub "publisher" f_ppt = false.
+Proof.
+  intros. unfold publish_aborts. rewrite !andb_true_iff, negb_true_iff. tauto.
+Qed.
+
+(** the option as the router copies it: present and convertible with AsString *)
+Definition ppt_opt (opts : dict) (k : string) : option string :=
+  match dget opts k with Some v => as_string v | None => None end.
+
+Lemma dget_app : forall (d1 d2 : dict) k,
+    dget (d1 ++ d2) k = match dget d1 k with Some v => Some v | None => dget d2 k end.
+Proof.
+  intros d1 d2 k. unfold dget. induction d1 as [|[k' v'] d1 IH]; cbn [app aget]; auto.
+  destruct (String.eqb k k'); auto.
+Qed.
+
+Lemma ppt_fold_get : forall opts ks d k, NoDup ks ->
+    dget (fold_left (fun d k => match dget opts k with
+                                | Some v => match as_string v with Some x => dset d k (vstr x) | None => d end
+                                | None => d end) ks d) k =
+    if smem k ks then match ppt_opt opts k with Some x => Some (vstr x) | None => dget d k end
+    else dget d k.
+Proof.
+  intros opts ks; induction ks as [|a ks IH]; intros d k ND; cbn [fold_left]; [reflexivity|].
+  inversion ND as [|? ? Hn ND']; subst. rewrite IH by auto.
+  unfold smem. cbn [existsb]. fold (smem k ks).
+  assert (Hstep : dget (match dget opts a with
+                        | Some v => match as_string v with Some x => dset d a (vstr x) | None => d end
+                        | None => d end) k =
+                  if String.eqb k a then match ppt_opt opts a with Some x => Some (vstr x) | None => dget d k end
+                  else dget d k).
+  { unfold ppt_opt. destruct (dget opts a) as [v|]; [destruct (as_string v)|];
+      unfold dget, dset; rewrite ?(aget_aset String.eqb String.eqb_spec); destruct (String.eqb k a); reflexivity. }
+  rewrite Hstep. destruct (String.eqb_spec k a) as [->|Hne]; cbn [orb].
+  - assert (smem a ks = false) as -> by (destruct (smem a ks) eqn:E; auto; apply smem_In in E; contradiction).
+    reflexivity.
+  - destruct (smem k ks); reflexivity.
+Qed.
+
+Lemma ppt_keys_NoDup : NoDup ppt_keys.
+Proof. unfold ppt_keys. repeat constructor; cbn; intuition discriminate. Qed.
+
+Lemma ppt_part_get : forall opts k,
+    dget (ppt_part opts) k =
+    if smem k ppt_keys && ppt_active opts then option_map vstr (ppt_opt opts k) else None.
+Proof.
+  intros opts k. unfold ppt_part. destruct (ppt_active opts); [|now rewrite andb_false_r].
+  rewrite andb_true_r. unfold ppt_into. rewrite ppt_fold_get by apply ppt_keys_NoDup.
+  destruct (smem k ppt_keys); [|reflexivity]. destruct (ppt_opt opts k); reflexivity.
+Qed.
+
+Lemma event_details_no_ppt : forall topic st disc pub recv k, In k ppt_keys ->
+    dget (event_details topic st disc pub recv) k = None.
+Proof.
+  intros topic st disc pub recv k Hk.
+  destruct (dget (event_details topic st disc pub recv) k) as [w|] eqn:E; auto. exfalso.
+  assert (Hh : dhas (event_details topic st disc pub recv) k = true)
+    by (apply (amem_true_iff String.eqb); eexists; exact E).
+  unfold event_details, disclose_dict in Hh.
+  assert (Hbase : dhas (if st then [("topic", vuri topic)] else []) k = true -> k = "topic").
+  { destruct st; unfold dhas, amem; cbn [aget]; [|discriminate].
+    destruct (String.eqb_spec k "topic"); auto; discriminate. }
+  assert (Hset : forall d k0 v, dhas (dset d k0 v) k = true -> k = k0 \/ dhas d k = true).
+  { intros d k0 v. unfold dhas, dset. rewrite (amem_aset String.eqb String.eqb_spec).
+    destruct (String.eqb_spec k k0); cbn; auto. }
+  assert (Hk' : k <> "topic" /\ k <> "publisher" /\ k <> "publisher_authid" /\ k <> "publisher_authrole").
+  { unfold ppt_keys in Hk. cbn in Hk. repeat split; intros ->; intuition discriminate. }
+  destruct Hk' as (K1 & K2 & K3 & K4).
+  destruct recv as [r|]; [destruct (disc && sess_feature r "subscriber" f_pub_ident)|]; try (apply Hbase in Hh; auto).
+  destruct (dget (s_details pub) "authid"), (dget (s_details pub) "authrole");
+    repeat (apply Hset in Hh; destruct Hh as [Hh|Hh]; [cbn in Hh; congruence|]); apply Hbase in Hh; auto.
+Qed.
+
+(** the passthru keys of an EVENT's details: the publisher's options, as
+    strings, when (and only when) the publication is in passthru mode *)
+Theorem event_ppt_details : forall opts topic st disc pub recv k, In k ppt_keys ->
+    dget (event_dict opts topic st disc pub recv) k =
+    if ppt_active opts then option_map vstr (ppt_opt opts k) else None.
+Proof.
+  intros opts topic st disc pub recv k Hk. unfold event_dict.
+  rewrite dget_app, ppt_part_get, event_details_no_ppt by auto.
+  apply smem_In in Hk. rewrite Hk. cbn [andb].
+  destruct (ppt_active opts); [|reflexivity]. destruct (option_map vstr (ppt_opt opts k)); reflexivity.
+Qed.
+
+(** every other key is as before passthru mode existed *)
+Theorem event_dict_other : forall opts topic st disc pub recv k, ~ In k ppt_keys ->
+    dget (event_dict opts topic st disc pub recv) k = dget (event_details topic st disc pub recv) k.
+Proof.
+  intros opts topic st disc pub recv k Hk. unfold event_dict.
+  rewrite dget_app, ppt_part_get.
+  assert (smem k ppt_keys = false) as -> by (destruct (smem k ppt_keys) eqn:E; auto; apply smem_In in E; contradiction).
+  reflexivity.
+Qed.
+
+Lemma topic_not_ppt : ~ In "topic" ppt_keys.
+Proof. unfold ppt_keys; cbn; intuition discriminate. Qed.
+
+Corollary event_dict_topic : forall opts topic st disc pub recv,
+    dget (event_dict opts topic st disc pub recv) "topic" = if st then Some (vuri topic) else None.
+Proof. intros. rewrite event_dict_other by apply topic_not_ppt. apply event_details_topic. Qed.
+
+Corollary event_dict_topic_iff : forall opts topic k disc pub recv,
+    dhas (event_dict opts topic (is_pattern k) disc pub recv) "topic" = true <-> k <> MExact.
+Proof.
+  intros. unfold dhas, amem. fold (dget (event_dict opts topic (is_pattern k) disc pub recv) "topic").
+  rewrite event_dict_topic. destruct k; cbn; split; congruence.
 Qed.
